@@ -124,6 +124,7 @@ probes_float!(f64, 64);
 impl Probes for String {}
 impl Probes for Vec<i32> {}
 impl Probes for Point {}
+impl Probes for Vec<u8> {}
 impl Probes for crate::types::CowF {}
 
 pub fn check<I: Probes>(vt: &'static Vt<I>, ctx: &Ctx) -> DeclReport {
